@@ -259,7 +259,11 @@ type knownEntry struct {
 
 func loadKnown() knownFile {
 	var k knownFile
-	b, err := os.ReadFile(filepath.Join(verifDir(), "known_findings.json"))
+	home := os.Getenv("VERIF_HOME") // where the committed file lives (VERIF_DIR may point at a scratch output directory)
+	if home == "" {
+		home = verifDir()
+	}
+	b, err := os.ReadFile(filepath.Join(home, "known_findings.json"))
 	if err == nil {
 		json.Unmarshal(b, &k)
 	}
